@@ -37,6 +37,17 @@ ResponsePath = List[Union[str, int]]
 GroupedFields = Dict[str, List[ast.Field]]
 
 
+def _clone_error(err: GraphQLLocatedError) -> GraphQLLocatedError:
+    # Shallow copy which does not go through ``__init__`` (subclasses are free
+    # to define their own signature).
+    clone = err.__class__.__new__(err.__class__)
+    clone.__dict__.update(err.__dict__)
+    clone.args = err.args
+    clone.nodes = list(err.nodes)
+    clone.__cause__ = err.__cause__
+    return clone.with_traceback(err.__traceback__)
+
+
 class ResolutionContext:
     """
     Information about the current resolution.
@@ -106,6 +117,10 @@ class ResolutionContext:
         """
         Register an error during the current execution.
         """
+        # Register a copy: the exception object belongs to the resolver which
+        # may raise the same one again (e.g. a module level constant), every
+        # occurence must keep its own path and nodes.
+        err = _clone_error(err)
         if node:
             if not err.nodes:
                 err.nodes = [node]
